@@ -25,7 +25,7 @@ META = dict(
     outside="alignments with more unitary alignments than the bound (the loop is per unitary alignment, sums are additive)",
     stubs=["positional / categorical components = one free symbol >= 0 per unit pair (abstract configs)", "ThreadPoolExecutor = deferred executor"],
     assumptions=["pair values >= 0", "alpha >= 0", "delta_empty > 0", "chance categorical disorders > 0 where a ratio is asserted"],
-    cfg_budget_s=dict(quick=240, thorough=1700),
+    cfg_budget_s=dict(quick=240, thorough=900),
 )
 
 CATS = [None, "a", "b", "z"]
